@@ -14,7 +14,15 @@ using namespace coloquinte;
 #define QMAX 2
 #endif
 extern "C" void harness() {
+#ifdef SHAPES33
+  // 3 sources x 3 sinks with the quantities of a few tight shapes (two sinks fill up while the third has room), costs symbolic
+  static const int CAPS[4][3] = {{2, 4, 3}, {1, 1, 2}, {2, 2, 2}, {3, 1, 2}};
+  static const int DEMS[4][3] = {{2, 5, 2}, {2, 1, 1}, {3, 2, 1}, {2, 2, 2}};
+  int shape = __verif_choice(4);
+  int ns = 3, nk = 3;
+#else
   int ns = 1 + __verif_choice(NS), nk = 1 + __verif_choice(NK);
+#endif
   std::vector<DemandType> cap, dem;
   std::vector<std::vector<CostType> > costs;
   DemandType tc = 0, td = 0;
@@ -22,6 +30,8 @@ extern "C" void harness() {
   for (int j = 0; j < nk; ++j) {
 #ifdef FAMILY_B
     cap.push_back(__verif_nondet_i64(1, QLIM));
+#elif defined(SHAPES33)
+    cap.push_back(CAPS[shape][j]);
 #else
     cap.push_back(1 + __verif_choice(QMAX));
 #endif
@@ -30,6 +40,8 @@ extern "C" void harness() {
   for (int i = 0; i < ns; ++i) {
 #ifdef FAMILY_B
     dem.push_back(__verif_nondet_i64(1, QLIM));
+#elif defined(SHAPES33)
+    dem.push_back(DEMS[shape][i]);
 #else
     dem.push_back(1 + __verif_choice(QMAX));
 #endif
